@@ -271,6 +271,7 @@ def replay_file(path: str, quiet: bool = False) -> int:
             for e in r.log[-int(os.environ.get('VERIF_SHOW_LOG')):]:
                 print("   ", e)
     if got:
+        print(f"FRESH-DIGEST {r.digest}")
         print(f"REPRODUCED property={prop} class={got[0].cls} digest_match={same_digest}")
         print(f"VIOLATION property={prop} replay={path}")
         return 1
@@ -278,7 +279,7 @@ def replay_file(path: str, quiet: bool = False) -> int:
     return 0
 
 
-def verify_replay_fresh(path: str) -> Tuple[bool, str]:
+def verify_replay_fresh(path: str, _second: bool = False) -> Tuple[bool, str]:
     """Replay in a fresh interpreter: must reproduce the same class and digest."""
     env = dict(os.environ)
     env["PYTHONHASHSEED"] = "0"
@@ -286,6 +287,20 @@ def verify_replay_fresh(path: str) -> Tuple[bool, str]:
                        capture_output=True, text=True, env=env, timeout=600)
     out = p.stdout + p.stderr
     ok = p.returncode == 1 and "REPRODUCED" in out and "digest_match=True" in out
+    if not ok and p.returncode == 1 and "REPRODUCED" in out and "digest_match=False" in out and not _second:
+        # The violation reproduces from the file in a fresh interpreter, but the event log differs from the run that found it:
+        # that run had a process history (earlier runs in the same worker), which matters only when the code under test keeps
+        # process-global state.  The replay file is defined by what a fresh interpreter does: adopt that digest and require a
+        # second fresh interpreter to agree with it exactly.
+        fresh = [l.split()[1] for l in out.splitlines() if l.startswith("FRESH-DIGEST ")]
+        if fresh:
+            with open(path) as f:
+                doc = json.load(f)
+            doc["digest"] = fresh[0]
+            doc["note"] = "digest taken from a fresh-interpreter replay; the finding run's own log differed (process-global state in the code under test?)"
+            with open(path, "w") as f:
+                f.write(json.dumps(doc, indent=1, sort_keys=True))
+            return verify_replay_fresh(path, _second=True)
     return ok, out[-2000:]
 
 
@@ -359,7 +374,7 @@ def run_check(prop: str, tier: str) -> int:
                     for pl in a["violations"]:
                         sg = pl["violation"]["signature"]
                         sig_counts[sg] = sig_counts.get(sg, 0) + 1
-                        if sig_counts[sg] <= 3:
+                        if sig_counts[sg] <= 8:
                             payloads.append(pl)
                     errors.extend(a["errors"])
                     for k, v in a.get("sets", {}).items():
@@ -396,6 +411,7 @@ def run_check(prop: str, tier: str) -> int:
     known_seen: Dict[str, int] = {}
     min_budget = float(os.environ.get("VERIF_MIN_BUDGET_S", 25 if tier == "quick" else 90))
     reported = 0
+    unverified = 0
     for sig in sorted(by_sig):
         group = by_sig[sig]
         known = match_known(sig, open_findings)
@@ -404,36 +420,48 @@ def run_check(prop: str, tier: str) -> int:
             continue
         if reported >= 3:
             continue
-        p = group[0]
-        case, choices, vj = p["case"], p["choices"], p["violation"]
-        orig_path = write_replay(prop, case, choices, None, vj, p["digest"], suffix="-orig")
-        path = orig_path
-        try:
-            m = minimise(mod, case, choices, vj["signature"], min_budget)
-        except Exception as e:
-            m = None
-            print(f"[check] minimisation raised {type(e).__name__}: {e}")
-        if m is not None:
-            mcase, mchoices, mr = m
-            mv = [v for v in mr.violations if v.sig == vj["signature"]][0]
-            path = write_replay(prop, mcase, mchoices, None, mv.to_json(), mr.digest)
-            vj = mv.to_json()
-            nplan = len(mcase.get("plan", [])) if isinstance(mcase.get("plan"), list) else None
-            print(f"[check] minimised: plan ops {len(case.get('plan', [])) if isinstance(case.get('plan'), list) else '-'} -> {nplan}, "
-                  f"non-benign choices {sum(len(v) for v in choices.values())} -> {sum(len(v) for v in mchoices.values())}")
-        ok, out = verify_replay_fresh(path)
-        if not ok and path != orig_path:
-            ok2, out2 = verify_replay_fresh(orig_path)
-            if ok2:
-                path, ok = orig_path, True
-        if not ok:
-            print(f"HARNESS-ERROR property={prop} violation '{sig}' did not reproduce from its replay file in a fresh "
-                  f"interpreter (nondeterminism in the harness?)\n{out}")
-            return 2
+        verified = False
+        last_out = ""
+        # Try the recorded occurrences in turn until one reproduces from its replay file in a fresh interpreter.  An occurrence can
+        # fail to reproduce when the code under test keeps process-global state, so that a run depended on the runs before it in
+        # the same worker; such an occurrence is skipped (and said so), never reported.
+        for p in group:
+            case, choices, vj = p["case"], p["choices"], p["violation"]
+            orig_path = write_replay(prop, case, choices, None, vj, p["digest"], suffix="-orig")
+            path = orig_path
+            try:
+                m = minimise(mod, case, choices, vj["signature"], min_budget)
+            except Exception as e:
+                m = None
+                print(f"[check] minimisation raised {type(e).__name__}: {e}")
+            if m is not None:
+                mcase, mchoices, mr = m
+                mv = [v for v in mr.violations if v.sig == vj["signature"]][0]
+                path = write_replay(prop, mcase, mchoices, None, mv.to_json(), mr.digest)
+                vj = mv.to_json()
+                nplan = len(mcase.get("plan", [])) if isinstance(mcase.get("plan"), list) else None
+                print(f"[check] minimised: plan ops {len(case.get('plan', [])) if isinstance(case.get('plan'), list) else '-'} -> {nplan}, "
+                      f"non-benign choices {sum(len(v) for v in choices.values())} -> {sum(len(v) for v in mchoices.values())}")
+            ok, last_out = verify_replay_fresh(path)
+            if not ok and path != orig_path:
+                ok2, out2 = verify_replay_fresh(orig_path)
+                if ok2:
+                    path, ok = orig_path, True
+            if ok:
+                verified = True
+                break
+            print(f"[check] an occurrence of '{sig}' (seed {case.get('seed')}) did not reproduce from its replay file in a fresh interpreter; trying another")
+        if not verified:
+            print(f"HARNESS-ERROR property={prop} violation '{sig}' ({sig_counts.get(sig, len(group))} occurrence(s)) did not reproduce from any of its "
+                  f"replay files in a fresh interpreter (process-global state in the code under test, or nondeterminism in the harness)\n{last_out[-600:]}")
+            unverified += 1
+            continue
         print(f"[check] {vj['class']} [{vj['signature']}]: {vj['message']}  ({sig_counts.get(sig, len(group))} occurrence(s))")
         print(f"VIOLATION property={prop} replay={path}", flush=True)
         reported += 1
         exit_code = 1
+    if unverified and exit_code == 0:
+        exit_code = 2
     for e in open_findings:
         n = known_seen.get(e["signature"], 0)
         print(f"KNOWN-FINDING: property={prop} {e.get('what', e['signature'])} [signature={e['signature']}; "
